@@ -117,7 +117,7 @@ def main():
              "kind_free_text": "python3 grammar-based program generators + driver: generated Rust is compiled from /repo's tree by cargo/rustc and executed (or must fail to compile); descriptors shrink by batch delta debugging"},
         ],
         "checks": checks,
-        "notes": "All checks: exit 0 held / exit 1 + VIOLATION line / exit 2 infrastructure trouble. Known findings are in /verif/known_findings.txt. Every in-process engine runs in two builds in both tiers (dev: debug assertions + overflow checks; release: neither), on a 2 MiB thread stack; the program engines have the same two profiles. Beyond their exhaustive bounds all engines share the planted families described in DESIGN.md 9.7 (single-point differences on long inputs, inputs longer than 2^16, indices / lengths / sizes congruent to small values modulo 2^8, 2^16, 2^32, one char per UTF-8 lead byte, chars differing in one encoded byte, NUL, effectful macro arguments, caller constants named like the macros' helper items, const evaluation of long inputs). tools/run_all.sh <quick|thorough> runs every check in turn; the last full thorough run on the unchanged tree took about 80 min and was silent. Every generated program - batched or compiled alone - sits in a hostile calling crate (shadowed assert!/debug_assert!/assert_eq!/assert_ne!/unreachable!, root modules named core and std, constants named like the macros' helper items; compile-fail programs also with a caller-defined compile_error!, array-macro programs with a trait that gives array references a by-value len). 22 genuine defects were found by the checks and repaired with fix: commits in /repo, 12 more are listed as known findings with alternative models (known_findings.txt, DESIGN.md 9.3, 9.3.1, 9.4).",
+        "notes": "All checks: exit 0 held / exit 1 + VIOLATION line / exit 2 infrastructure trouble. Known findings are in /verif/known_findings.txt. Every in-process engine runs in two builds in both tiers (dev: debug assertions + overflow checks; release: neither), on a 2 MiB thread stack; the program engines have the same two profiles. Beyond their exhaustive bounds all engines share the planted families described in DESIGN.md 9.7 (single-point differences on long inputs, inputs longer than 2^16, indices / lengths / sizes congruent to small values modulo 2^8, 2^16, 2^32, one char per UTF-8 lead byte, chars differing in one encoded byte, NUL, effectful macro arguments, caller constants named like the macros' helper items, const evaluation of long inputs). tools/run_all.sh <quick|thorough> runs every check in turn; the last full thorough run on the repaired tree (/repo a131c22, /verif c07e5d8) took 92 min and was silent (all 20 exit 0). Every generated program - batched or compiled alone - sits in a hostile calling crate (shadowed assert!/debug_assert!/assert_eq!/assert_ne!/unreachable!, root modules named core and std, constants named like the macros' helper items; compile-fail programs also with a caller-defined compile_error!, array-macro programs with a trait that gives array references a by-value len). 22 genuine defects were found by the checks and repaired with fix: commits in /repo, 12 more are listed as known findings with alternative models (known_findings.txt, DESIGN.md 9.3, 9.3.1, 9.4).",
         "not_applicable": na,
     }
     with open(os.path.join(VERIF, "MANIFEST.json"), "w") as f:
